@@ -730,3 +730,17 @@ Proof.
   intros c sched r er k w i He Hs. destruct (gi_ar _ (GInv_run c sched) r) as (_ & _ & _ & _ & A5).
   apply A5 in He. destruct He as (_ & _ & E3). apply E3 in Hs. exact Hs.
 Qed.
+
+(* along the log the own component is 1, 2, 3, ... *)
+Lemma own_component_seq_lemma : forall c sched a k e,
+  a < List.length (cf_archs c) ->
+  nth_error (a_log (g_arch (run c sched) a)) k = Some e -> vget a (e_clock e) = S k.
+Proof.
+  intros c sched a k e Ha Hn.
+  rewrite (own_component_lemma c sched a e) by (eapply nth_error_In; eassumption).
+  destruct (LInv_run c sched a Ha) as [_ _ I3 _].
+  pose proof (map_nth_error e_no k _ Hn) as H. rewrite I3 in H.
+  assert (Hk : k < List.length (a_log (g_arch (run c sched) a))) by (apply nth_error_Some; congruence).
+  rewrite (nth_error_nth' _ 0) in H by (rewrite seq_length; exact Hk).
+  rewrite seq_nth in H by exact Hk. inversion H. reflexivity.
+Qed.
